@@ -98,3 +98,23 @@ def decode(data):
         ct.append((w >> 12, w & 0xfff, bool(data[p + 3])))
         p += 4
     return {'atoms': atoms, 'conn': conn, 'orders': orders, 'cis_trans': ct, 'length': p}
+
+
+def to_version0(data):
+    """the same molecule in the earlier (version 0) layout: header byte 0, everything as in version 2 except the bond-order
+    block, which holds five 3-bit orders per two bytes behind one padding bit (`0 3 3 1 | 2 3 3`, comment in _unpack_v0v2.pyx)"""
+    d = decode(data)
+    nb = len(d['orders'])
+    ob = (3 * nb + 7) // 8
+    start = d['length'] - 4 * len(d['cis_trans']) - ob
+    out = bytearray(data[:start])
+    out[0] = 0
+    orders = [o - 1 for o in d['orders']]
+    for i in range(0, nb, 5):
+        five = (orders[i:i + 5] + [0] * 5)[:5]
+        w = 0
+        for o in five:
+            w = (w << 3) | o
+        out += w.to_bytes(2, 'big')
+    out += data[start + ob:d['length']]
+    return bytes(out)
